@@ -10,6 +10,77 @@ POISON = [0x2b, 0x2d, 0x2f, 0x49, 0x4b, 0x4d, 0x4f, 0x6b, 0x8b, 0x9b, 0x9f, 0xa5
 INSTRS = ["-", "-", "-", "8a0424", "488b00", "ff20", "488b4308", "c3", "90", "ffff"]
 
 
+# ---- amd64 instruction encoder for Q cases (memory-operand forms; the decoder under test is yaxpeax) ----
+HW2ID = {0: 0, 1: 2, 2: 1, 3: 3, 4: 7, 5: 6, 6: 4, 7: 5}
+HW2ID.update({k: k for k in range(8, 16)})
+ID2HW = {v: k for k, v in HW2ID.items()}
+# (opcode byte, /digit or None = register field, is LEA)
+Q_OPCODES = [(0x8b, None, 0), (0x8b, None, 0), (0x89, None, 0), (0x03, None, 0), (0x01, None, 0), (0x2b, None, 0),
+             (0x3b, None, 0), (0x39, None, 0), (0x33, None, 0), (0x23, None, 0), (0x85, None, 0), (0x0b, None, 0),
+             (0x8d, None, 1), (0xff, 0, 0), (0xff, 1, 0)]
+ARCHES = [0, 10, 9, 3, 0x8002, 0x8001, 5, 12, 0x8003, 1, 0x8004, 6, 0xffff, 2, 8, 7, 4, 11, 13, 0x8005]
+LIVE_ARCH = (9, 0x8002, 0x8004)
+
+
+def s32(x):
+    x &= 0xffffffff
+    return x - (1 << 32) if x & 0x80000000 else x
+
+
+def enc_instr(opc, digit, w, reg, form, base, index, scale_log, disp, force_disp32=False):
+    """-> (bytes, (base id|-1, index id|-1, scale|-1, disp)); base/index are hardware numbers or None"""
+    regf = digit if digit is not None else reg
+    rex = 0x40 | (w << 3) | ((regf >> 3) << 2)
+    tail = b""
+    if form == "rip":
+        modrm = (0 << 6) | ((regf & 7) << 3) | 5
+        tail = (disp & 0xffffffff).to_bytes(4, "little")
+        dec = (16, -1, -1, s32(disp))
+    elif form in ("abs", "index_disp"):
+        modrm = (0 << 6) | ((regf & 7) << 3) | 4
+        if form == "abs":
+            sib = (0 << 6) | (4 << 3) | 5
+            dec = (-1, -1, -1, s32(disp))
+        else:
+            rex |= (index >> 3) << 1
+            sib = (scale_log << 6) | ((index & 7) << 3) | 5
+            dec = (-1, HW2ID[index], 1 << scale_log, s32(disp))
+        tail = bytes([sib]) + (disp & 0xffffffff).to_bytes(4, "little")
+    else:
+        rex |= (base >> 3)
+        need_sib = index is not None or (base & 7) == 4
+        if force_disp32 or not (-128 <= disp <= 127):
+            mod, db = 2, (disp & 0xffffffff).to_bytes(4, "little")
+            disp = s32(disp)
+        elif disp != 0 or (base & 7) == 5:
+            mod, db = 1, (disp & 0xff).to_bytes(1, "little")
+        else:
+            mod, db = 0, b""
+        if need_sib:
+            modrm = (mod << 6) | ((regf & 7) << 3) | 4
+            if index is not None:
+                rex |= (index >> 3) << 1
+                sib = (scale_log << 6) | ((index & 7) << 3) | (base & 7)
+                dec = (HW2ID[base], HW2ID[index], 1 << scale_log, disp)
+            else:
+                sib = (0 << 6) | (4 << 3) | (base & 7)
+                dec = (HW2ID[base], -1, -1, disp)
+            tail = bytes([sib]) + db
+        else:
+            modrm = (mod << 6) | ((regf & 7) << 3) | (base & 7)
+            dec = (HW2ID[base], -1, -1, disp)
+            tail = db
+    return bytes([rex, opc, modrm]) + tail, dec
+
+
+def operand_value(ctx, dec):
+    b, i, sc, d = dec
+    a = ctx[b] if b >= 0 else 0
+    if i >= 0:
+        a = (a + ctx[i] * sc) & U64
+    return (a + d) & U64
+
+
 def region_range(kind, a, b):
     if kind == 0:
         if b == 0 or a + b > U64:
@@ -41,7 +112,7 @@ class C19(PropBase):
     pid = "C19"
     coq_dirs = ["Base", "C08", "C19"]
     bins = ["c19"]
-    translators = ["bitflip_consts.py"]
+    translators = ["bitflip_consts.py", "c19_check.py"]
     rule = ("T cases call bitflip::try_bit_flips directly (address, source register, bit range, amd64 context or none, "
             "memory-info list or Linux maps with 0..64 regions of every permission mix, memory operation); P cases run "
             "process_minidump on a synthesized dump (x86/amd64/arm64 x Windows/Linux, exception code/parameters, optional "
@@ -120,6 +191,132 @@ class C19(PropBase):
 
     def fmt_regs(self, kind, regs):
         return "%d %d %s" % (kind, len(regs), " ".join("%d %d %d" % r for r in regs))
+
+    def gen_q(self, rng, dist):
+        """one Q case: whole process_minidump with a generated (encoded + decoded) instruction"""
+        scen = rng.below(8)
+        arch, os_ = 9, rng.below(2)
+        kind = 0 if os_ == 0 else rng.below(2)
+        ctx = [rng.choice([rng.below(1 << 47), rng.below(1 << 20), rng.below(1 << 64), 1 << rng.below(64)]) for _ in range(17)]
+        ctx[16] = (rng.below(1 << 40) | 0x10000) & ~0xf
+        flags = 0
+        if os_ == 0:
+            code, nparams, info0 = rng.choice([0xC0000005, 0xC0000005, 0xC0000005, 0xC0000006, 0xC000001D]), rng.below(4), rng.choice([0, 1, 8, 2])
+        else:
+            code, nparams, info0 = rng.choice([11, 11, 7, 4]), 0, 0
+            flags = rng.choice([0, 1, 2, 0x80, 0x80, 5, 0xfffffffa])
+        opc, digit, lea = rng.choice(Q_OPCODES)
+        w = 1 if opc == 0xff or rng.chance(3, 4) else 0
+        form = rng.choice(["base", "base", "base_index", "base_index", "index_disp", "abs", "rip"])
+        base = rng.below(16)
+        index = rng.choice([x for x in range(16) if x != 4])
+        scale_log = rng.below(4)
+        disp = rng.choice([0, 8, 0x10, -8, 0x7f, -0x80, 0x100, 0x1000, -0x1000, 0x7fffffff, -0x80000000, rng.range(-70000, 70000)])
+        if form in ("abs", "index_disp", "rip"):
+            disp = rng.choice([disp, rng.below(1 << 31), -rng.below(1 << 31)])
+        if form == "base":
+            index = None
+        regs = []
+        tag = "random"
+        bid = HW2ID[base] if form in ("base", "base_index") else (16 if form == "rip" else None)
+        iid = HW2ID[index] if form in ("base_index", "index_disp") else None
+        if scen == 0:
+            # platform sweep: every processor_architecture value, power-of-two / region-adjacent crash addresses
+            tag = "platform"
+            arch = rng.choice(ARCHES)
+        elif scen == 1 and form in ("base", "base_index"):
+            tag = "null_base"
+            ctx[bid] = 0
+            if iid is not None and iid != bid:
+                ctx[iid] = rng.choice([0, 1, 8, rng.below(1 << 16), rng.below(1 << 47)])
+        elif scen == 2 and iid is not None:
+            tag = "null_index_only"
+            ctx[iid] = 0
+            if bid is not None and bid != iid and bid != 16 and ctx[bid] == 0:
+                ctx[bid] = rng.below(1 << 47) | 1
+        elif scen == 3:
+            tag = "gpf"
+            if rng.chance(1, 2):
+                os_, kind, code, nparams, info0, flags = 0, 0, 0xC0000005, rng.choice([2, 2, 2, 1, 3]), rng.choice([0, 0, 0, 1, 8]), 0
+            else:
+                os_, kind = 1, rng.below(2)
+                code, nparams, info0, flags = rng.choice([11, 7, 11, 7, 4]), 0, 0, rng.choice([0x80, 0x80, 0x80, 0, 1])
+            if rng.chance(1, 6):
+                arch = rng.choice([0x8002, 0x8004, 12, 0])
+        dec = enc = None
+        enc, dec = enc_instr(opc, digit, w, rng.below(16), form, base, index, scale_log, disp, rng.chance(1, 5))
+        centre = operand_value(ctx, dec)
+        # regions: one bit away from the operand address / from the operand registers / power-of-two addresses
+        n = rng.range(0, 4)
+        for _ in range(n):
+            st = rng.below(6)
+            if st == 0:
+                a = 1 << rng.below(48)
+            elif st == 1 and bid is not None:
+                a = ctx[bid] ^ (1 << rng.below(64))
+            elif st == 2 and iid is not None:
+                a = ctx[iid] ^ (1 << rng.below(64))
+            elif st == 3:
+                a = centre ^ (1 << rng.below(64))
+            elif st == 4:
+                a = rng.below(1 << 16)
+            else:
+                a = rng.below(1 << 47)
+            a &= U64
+            size = rng.choice([0x1000, 0x2000, 64, 1 << 20])
+            lo = a & ~0xf if size == 64 else a & ~0xfff
+            if kind == 0:
+                regs.append((lo, size, rng.choice([1, 2, 4, 0x20, 0x40, 0x10, 0x104])))
+            else:
+                regs.append((lo, min(U64, lo + size - 1), rng.below(8)))
+        if tag == "gpf":
+            # operand address in the non-canonical range, one high bit away from a mapped canonical address
+            tgt = (rng.below(1 << 47) & ~0xfff) | rng.below(64)
+            hi_bit = rng.range(48, 63) if rng.chance(5, 6) else rng.range(40, 47)
+            want = tgt ^ (1 << hi_bit)
+            if bid is not None and bid != 16 and (iid is None or iid != bid):
+                cur = operand_value(ctx, dec)
+                ctx[bid] = (ctx[bid] + want - cur) & U64
+            elif iid is not None and dec[2] == 1:
+                cur = operand_value(ctx, dec)
+                ctx[iid] = (ctx[iid] + want - cur) & U64
+            if kind == 0:
+                regs.append((tgt & ~0xfff, 0x1000, rng.choice([2, 4, 0x20, 1])))
+            else:
+                regs.append((tgt & ~0xfff, (tgt & ~0xfff) + 0xfff, rng.below(8)))
+            if bid == 16:
+                pass
+        centre = operand_value(ctx, dec)
+        # crash address as the OS would report it
+        if tag == "gpf":
+            if os_ == 0:
+                info1, excaddr = rng.choice([U64, U64, U64, U64 - 1, 0]), ctx[16]
+            else:
+                info1, excaddr = 0, rng.choice([0, 0, 0, 1, centre])
+        elif tag == "platform":
+            a = rng.choice([1 << rng.range(16, 47), 1 << rng.below(64), centre, rng.below(1 << 47)])
+            if regs and rng.chance(1, 2):
+                a = (regs[0][0] + rng.below(8)) ^ (1 << rng.below(48))
+            info1, excaddr = a & U64, a & U64
+        else:
+            a = rng.choice([centre, centre, centre, rng.below(1 << 47), 0])
+            info1, excaddr = a, (a if os_ == 1 else ctx[16])
+        use_ctx = arch in (9, 12) and not (tag == "platform" and rng.chance(1, 3))
+        if not use_ctx:
+            ctxs, instr, decs = "-", "-", "-"
+        elif arch != 9:
+            ctxs, instr, decs = "A " + " ".join(map(str, ctx)), enc.hex(), "-"
+        else:
+            ctxs = "A " + " ".join(map(str, ctx))
+            if rng.chance(1, 12):
+                instr, decs = "-", "-"
+                tag += "_nobytes"
+            else:
+                instr = enc.hex()
+                decs = "D %d 1 %d %d %d %d" % ((lea,) + dec)
+        dist["Q_" + tag] = dist.get("Q_" + tag, 0) + 1
+        return "Q %d %d %d %d %d %d %d %d %s %s %s %s" % (arch, os_, code, flags, nparams, info0, info1, excaddr, ctxs, instr, decs,
+                                                          self.fmt_regs(kind, regs))
 
     def gen_cases(self, tier, seed):
         rng = Rng(seed)
@@ -216,6 +413,12 @@ class C19(PropBase):
                                                            instr, self.fmt_regs(kind, regs)))
             dist["P"] += 1
             dist["planted_instr"] += instr != "-"
+        # instructions without a memory operand (no accesses, no registers): nop / mov rax,rbx
+        for instr in ("90", "4889d8"):
+            cases.append("Q 9 1 11 1 0 0 0 65536 A %s %s D 0 0 0 1 0 4096 4" % (" ".join(["4096"] * 17), instr))
+        for _ in range(4000 if tier == "quick" else 40000):
+            cases.append(self.gen_q(rng, dist))
+            dist["Q"] = dist.get("Q", 0) + 1
         return cases, dist, False
 
     def canon_impl(self, case, ans, profile):
@@ -223,7 +426,7 @@ class C19(PropBase):
             return "P;;"
         if case.startswith("P"):
             ans = ans.split("#", 1)[1] if "#" in ans else ans
-        return ans
+        return ans   # Q: adjusted#flips compared whole
 
     def canon_model(self, case, ans):
         return None if ans == "?" else ans
@@ -245,6 +448,8 @@ class C19(PropBase):
             op = int(t[i + 2 + 3 * n])
             flips = parse_flips(ans)
             return self.judge(flips, {(-1 if reg < 0 else reg): a}, BR[br], kind, regs, op, reg_fixed=reg)
+        if t[0] == "Q":
+            return self.oracle_q(t, ans)
         # P
         cpu = int(t[1])
         pre, fl = ans.split("#", 1)
@@ -276,6 +481,50 @@ class C19(PropBase):
         else:
             examined = {-1: int(address)}
             br = (0, 48)
+        if ctx:
+            for k, v in enumerate(ctx):
+                examined[k] = v
+        return self.judge(flips, examined, br, kind, regs, op, reg_fixed=None)
+
+    def oracle_q(self, t, ans):
+        arch, os_, code, flags, nparams, info0, info1, excaddr = [int(x) for x in t[1:9]]
+        adj, fl = ans.split("#", 1)
+        flips = parse_flips(fl)
+        if arch not in LIVE_ARCH and flips:
+            return "bit flips reported for processor_architecture %#x (32-bit, ARM64/ARM64_OLD or unknown)" % arch
+        if adj.startswith("null") and flips:
+            return "bit flips reported although the access was recognised as null pointer plus offset"
+        if adj.startswith("nc:") and arch != 9:
+            return "non-canonical adjustment on a non-amd64 dump"
+        if not flips:
+            return None
+        i = 9
+        ctx = None
+        if t[i] == "-":
+            i += 1
+        else:
+            ctx = [int(x) for x in t[i + 1:i + 18]]
+            i += 18
+        i += 1  # instr
+        if t[i] == "D":
+            i += 3 + 4 * int(t[i + 2])
+        else:
+            i += 1
+        kind, n = int(t[i]), int(t[i + 1])
+        regs = [(int(t[i + 2 + 3 * k]), int(t[i + 3 + 3 * k]), int(t[i + 4 + 3 * k])) for k in range(n)]
+        op = 0
+        if os_ == 0 and code == 0xC0000005 and nparams >= 1:
+            op = {0: 1, 1: 2, 8: 3}.get(info0, 0)
+        address = info1 if (os_ == 0 and code in (0xC0000005, 0xC0000006) and nparams >= 2) else excaddr
+        if adj.startswith("nc:"):
+            v = int(adj[3:])
+            if not (0x0000800000000000 <= v <= 0xffff7fffffffffff):
+                return "adjusted address %#x reported as non-canonical is canonical" % v
+            examined = {-1: v}
+            br = (48, 64)
+        else:
+            examined = {-1: address}
+            br = (0, 48) if arch == 9 else (0, 64)
         if ctx:
             for k, v in enumerate(ctx):
                 examined[k] = v
